@@ -176,11 +176,20 @@ static std::vector<Call> big_calls()
         {M_NTT, 2 * K, 0, 1, 3, 1}, {M_INTT, K, 0, 2, 2, 1},
     };
 }
+// small calls for the unmerged exploration: extendPol over every N in {1,2,4,8} (so that shrink-then-grow patterns such
+// as N = 4, 2, 8 occur), a forward and an inverse transform
+static std::vector<Call> small_calls()
+{
+    return {
+        {M_EXT, 1, 2, 1, 3, 1}, {M_EXT, 2, 2, 1, 3, 1}, {M_EXT, 2, 4, 2, 2, 1}, {M_EXT, 4, 4, 1, 3, 1}, {M_EXT, 4, 8, 1, 2, 2},
+        {M_EXT, 8, 8, 1, 3, 1}, {M_EXT, 8, 16, 2, 3, 1}, {M_NTT, 8, 0, 1, 3, 1}, {M_INTT, 4, 0, 2, 2, 1},
+    };
+}
 static std::vector<u64> big_out(NTT_Goldilocks &o, const Call &c) { return do_call(o, c); }
 static void deep_history(const Cfg &cfg, const std::vector<Call> &A, const std::vector<int> &hist)
 {
     omp_set_num_threads(cfg.base_omp);
-    std::string cs_ = fmt("deep=1 D=%llu nthreads=%u hist=%s", (unsigned long long)cfg.D, cfg.nthreads, histstr(A, hist).c_str());
+    std::string cs_ = fmt("deep=%d D=%llu nthreads=%u hist=%s", A.size() == small_calls().size() ? 2 : 1, (unsigned long long)cfg.D, cfg.nthreads, histstr(A, hist).c_str());
     std::vector<u64> got, fresh;
     {
         NTT_Goldilocks o(cfg.D, cfg.nthreads);
@@ -215,7 +224,7 @@ int main(int argc, char **argv)
         {
             Cfg cfg{cu(m, "D"), (unsigned)cu(m, "nthreads"), 4};
             g_deepK = cfg.D / 2;
-            std::vector<Call> A = big_calls();
+            std::vector<Call> A = cu(m, "deep", 0) == 2 ? small_calls() : big_calls();
             std::vector<int> hist;
             for (u64 x : culist(m, "hist")) hist.push_back((int)x);
             ChildResult r = run_child([&](FILE *f) { dup2(fileno(f), 1); rep().reset(); deep_history(cfg, A, hist); rep().flush(); fflush(stdout); }, 300);
@@ -345,6 +354,26 @@ int main(int argc, char **argv)
                      }, 600);
         total_states += (long long)H.size();
         nontriv += (long long)H.size() - (long long)A.size();
+        {
+            // the same, over the small calls (depth 4: 7380 histories)
+            Cfg scfg{8, 3, 4};
+            std::vector<Call> SA = small_calls();
+            std::vector<std::vector<int>> SH, lvl = {{}};
+            for (int d = 1; d <= 4; d++)
+            {
+                std::vector<std::vector<int>> nx;
+                for (auto &h : lvl) for (int c = 0; c < (int)SA.size(); c++) { auto g = h; g.push_back(c); nx.push_back(g); }
+                for (auto &h : nx) SH.push_back(h);
+                lvl = nx;
+            }
+            isolated_for((long)SH.size(), args.jobs, 64, [&](long i) { deep_history(scfg, SA, SH[i]); },
+                         [&](long i, const ChildResult &r) {
+                             rep().viol(fmt("C19.%s.deep.%s", crash_sig(r).c_str(), mname[SA[SH[i].back()].mode]), fmt("deep=2 D=%llu nthreads=%u hist=%s", (unsigned long long)scfg.D, scfg.nthreads, histstr(SA, SH[i]).c_str()), err_tail(r));
+                         }, 300);
+            total_states += (long long)SH.size();
+            nontriv += (long long)SH.size() - (long long)SA.size();
+            printf("INFO deep: all %zu histories up to depth 4 over %zu small calls (extendPol N in 1,2,4,8; NTT; INTT), no state merging\n", SH.size(), SA.size());
+        }
         printf("INFO deep: all %zu histories up to depth %d over %zu large calls (sizes 2^12..2^14), no state merging\n", H.size(), depth, A.size());
         rep().sample("deep-history", "\"history\":\"extendPol(2^13<-2^12), extendPol(2^13<-2^13), extendPol(2^14<-2^12), extendPol(2^14<-2^13,2 cols,2 blocks): last call compared with a fresh object\"", 1);
     }
